@@ -1,6 +1,8 @@
 """C04 - unresolvable dependency cycles are reported; delay-resolved cycles run."""
 from .. import h_sched as S
 from .. import h_sched_gen as G
+from hypothesis import strategies as st
+
 from ..runner import Part
 
 PROP = "C04"
@@ -63,5 +65,115 @@ def check(spec, ctx):
             return
 
 
+# ------------------------------------------------------------------ rings resolved by a calendar delay
+_NODE = None
+
+
+def _node_class():
+    global _NODE  # pylint: disable=global-statement
+    if _NODE:
+        return _NODE
+    from datetime import timedelta
+
+    import finam as fm
+
+    class Node(fm.TimeComponent):
+        """daily-ish model with one input and one output; publishes the number of days since the common start"""
+
+        def __init__(self, name, start, step_days, log):
+            super().__init__()
+            self._name, self._time, self.t0 = name, start, start
+            self.step, self.log, self.n = timedelta(days=step_days), log, 0
+
+        def _next_time(self):
+            return self.time + self.step
+
+        def _initialize(self):
+            self.inputs.add(name="i", time=self.time, grid=fm.NoGrid(), units=None)
+            self.outputs.add(name="o", time=self.time, grid=fm.NoGrid(), units="")
+            self.create_connector(pull_data=["i"])
+
+        def _connect(self, start_time):
+            self.try_connect(start_time, push_data={"o": 0.0})
+
+        def _validate(self):
+            pass
+
+        def _update(self):
+            t = self.next_time
+            self.n += 1
+            if self.n > 400:
+                raise S.HarnessBound(f"{self.name}: more than 400 updates")
+            v = self.inputs["i"].pull_data(t)
+            self.log.append((self.name, t, float(v.magnitude.ravel()[0])))
+            self._time = t
+            self.outputs["o"].push_data(float((t - self.t0).days), t)
+
+        def _finalize(self):
+            pass
+
+    _NODE = Node
+    return Node
+
+
+def check_calendar_ring(case, ctx):
+    """A <-> B, the link A -> B delayed by a calendar delay (relativedelta: a month is never shorter than the two
+    steps together, so the cycle is resolved); starts on arbitrary dates incl. month ends. The run must complete and
+    B must receive, for a pull at t, A's publication for max(t - delay, start) (A steps daily)."""
+    from datetime import datetime, timedelta
+
+    import finam as fm
+    from dateutil.relativedelta import relativedelta
+
+    Node = _node_class()
+    start = datetime(*case["start"])
+    delay = relativedelta(**case["delay"])
+    log = []
+    a, b = Node("A", start, 1, log), Node("B", start, case["step_b"], log)
+    comp = fm.Composition([a, b] if case["a_first"] else [b, a], print_log=False)
+    x = a.outputs["o"]
+    if case["scale"]:
+        x = x >> fm.adapters.Scale(1.0)
+    x >> fm.adapters.DelayFixed(delay) >> b.inputs["i"]
+    b.outputs["o"] >> a.inputs["i"]
+    end = start + timedelta(days=case["days"])
+    info = f" | start {start.date()} delay {case['delay']} step_b {case['step_b']} a_first {case['a_first']}"
+    ctx.nontrivial(start.day >= 28 or "months" in case["delay"])
+    if start.day >= 29:
+        ctx.event("start-at-month-end")
+    try:
+        comp.run(end_time=end)
+    except S.HarnessBound as e:
+        ctx.violation("hang", str(e) + info)
+        return
+    except fm.FinamCircularCouplingError as e:
+        ctx.violation("false-circular:calendar", f"cycle resolved by a calendar delay reported as circular: {str(e)[:120]}" + info)
+        return
+    except (fm.FinamTimeError, fm.FinamNoDataError) as e:
+        ctx.violation(f"wrong-error:{type(e).__name__}", f"{str(e)[:160]}" + info)
+        return
+    if a.time < end or b.time < end:
+        ctx.violation("C03-end-not-reached", f"A at {a.time}, B at {b.time}, end {end}" + info)
+        return
+    for name, t, v in log:
+        if name == "B":
+            want = max(t - delay, start)
+            if v != float((want - start).days):
+                ctx.violation("calendar-ring-value", f"B pulled at {t.date()} and got A's day {v}, expected day {(want - start).days} ({want.date()})" + info)
+                return
+
+
+@st.composite
+def calendar_ring_case(draw):
+    y = draw(st.sampled_from([2001, 2003, 2004]))
+    m = draw(st.integers(1, 12))
+    dmax = [31, 29 if y == 2004 else 28, 31, 30, 31, 30, 31, 31, 30, 31, 30, 31][m - 1]
+    d = draw(st.one_of(st.integers(1, dmax), st.integers(max(1, dmax - 3), dmax)))
+    delay = draw(st.sampled_from([{"months": 1}, {"months": 1}, {"months": 2}, {"months": 1, "days": 2}, {"days": 5}, {"weeks": 1}, {"years": 1}]))
+    return {"start": [y, m, d], "delay": delay, "step_b": draw(st.integers(1, 3)), "a_first": draw(st.booleans()), "scale": draw(st.booleans()),
+            "days": 400 if "years" in delay else draw(st.integers(40, 100))}
+
+
 def parts():
-    return [Part("rings", check, strategy=G.ring_spec(), strategy_thorough=G.ring_spec(max_n=7), budget={"quick": 1400, "thorough": 80000}, fuzz={"thorough": 6000})]
+    return [Part("calendar_rings", check_calendar_ring, strategy=calendar_ring_case(), budget={"quick": 150, "thorough": 5000}, shrink_budget=100),
+            Part("rings", check, strategy=G.ring_spec(), strategy_thorough=G.ring_spec(max_n=7), budget={"quick": 1400, "thorough": 80000}, fuzz={"thorough": 6000})]
